@@ -66,7 +66,12 @@ pub fn extract_return_type(ret_type: &ReturnType) -> &Path {
     let args = &args.args;
     assert!(!args.is_empty());
     let GenericArgument::Type(Type::Path(type_path)) = &args[0] else {
-        unreachable!()
+        proc_macro_error::abort!(
+            args[0].span(),
+            "Unsupported return type. The first generic argument of `Result` has to be a \
+                    named type (a type path). Tuples, arrays, references and the unit type \
+                    are not supported, wrap them in a named type."
+        )
     };
 
     &type_path.path
